@@ -6,7 +6,7 @@ Open Scope Qc_scope.
 
 (* document trees: numbers within k roundings; the int/float form of a number
    is not compared (no reader looks at it except for the depth of a cell, which
-   is compared through the loaded object) *)
+   is compared through the loaded object); mappings as mappings, lists in order *)
 Fixpoint ytree_sim (k : Z) (a b : ytree) {struct a} : bool :=
   match a, b with
   | YNum q _, YNum q' _ => qnear k q q'
@@ -20,12 +20,18 @@ Fixpoint ytree_sim (k : Z) (a b : ytree) {struct a} : bool :=
          | _, _ => false
          end) l l'
   | YMap m, YMap m' =>
-      (fix go (m : list (string * ytree)) (m' : list (string * ytree)) : bool :=
-         match m, m' with
-         | [], [] => true
-         | (key, x) :: r, (key', y) :: r' => String.eqb key key' && ytree_sim k x y && go r r'
-         | _, _ => false
-         end) m m'
+      (* as mappings (a Python dict has distinct keys): same number of entries, every key of m bound
+         in m' to a similar value.  The order of the entries of a mapping is nothing a reader looks at
+         (the order of the modules is compared through the loaded design, NLoaded) *)
+      Nat.eqb (List.length m) (List.length m') &&
+      (fix go (m : list (string * ytree)) : bool :=
+         match m with
+         | [] => true
+         | (key, x) :: r => match lookup key m' with
+                            | Some y => ytree_sim k x y
+                            | None => false
+                            end && go r
+         end) m
   | _, _ => false
   end.
 Definition otree_sim (k : Z) (a : option ytree) (b : option ytree) : bool := opt_eqb (ytree_sim k) a b.
